@@ -708,6 +708,9 @@ impl Ref {
         let mut d2 = dcidx.to_vec();
         d2.sort();
         d2.dedup();
+        if d1.iter().any(|&i| i >= l) {
+            return false;
+        }
         let u = p.m_cap.len();
         // M = U + R1 + R2 - 1 - L, in the naturals
         let tot = u + d1.len() + d2.len();
